@@ -6,7 +6,7 @@ implementation's own artefacts, and the occurrence oracles (C01–C09).
 import Driver.Dump
 import PmVerif.Model.ManyMatcher
 import PmVerif.Spec.Occurs
-import PmVerif.Spec.StrRun
+import PmVerif.Spec.MatRun
 namespace Drv
 open Pm
 
@@ -356,7 +356,8 @@ def matE2E : E2EDom MKey MVal CharPred MatHost MatPos MatPattern :=
   { name := "MAT", D := matDomain, toTree := charTree mkeyLt,
     pKey := pMKey, pCons := pMCons, pPat := pList (pList pMatCell), pHost := pList (pList pNat),
     pMap := pMatPos, sMap := sMatPos, convert := fun p => some (matConstraints p),
-    consEq := fun a b => a == b, extraKeys := fun _ => [], judge := some (judgeExpected sMatPos matExpected) }
+    consEq := fun a b => a == b, extraKeys := fun _ => [], judge := some (judgeExpected sMatPos matExpected),
+    programOK := some matProgramOK }
 
 structure TPat where
   cons : List TCons
